@@ -231,7 +231,7 @@ def injection_interpolation(A, splitting):
         P = csr_array((np.ones((nc,), dtype=A.dtype),
                        P_colinds, P_rowptr), shape=[n, nc])
     else:
-        P_data = np.array(nc*[np.identity(blocksize, dtype=A.dtype)], dtype=A.dtype)
+        P_data = np.tile(np.identity(blocksize, dtype=A.dtype), (nc, 1, 1))
         P = bsr_array((P_data, P_colinds, P_rowptr), blocksize=[blocksize, blocksize],
                        shape=[n*blocksize, nc*blocksize])
 
